@@ -22,6 +22,8 @@ def script(name, who):
         "readmeta": [META1, META2],
         "merge": [f"merge into d0.s0.shared using (select {who}{who} as v) s on shared.v = s.v when not matched then insert (v) values (s.v)"],
         "txpk": ["begin", "insert into d0.s0.pk values (7)", "commit"],
+        "mergefail": ["merge into d0.s0.shared using (select v from no_such_source) s on shared.v = s.v when not matched then insert (v) values (s.v)"],
+        "nodbsel": [f"insert into d0.s0.shared values ({who})", f"select {who} * 1000 as w from d0.s0.shared where v = {who}", f"select {who} * 1000 + 1 as w"],
         "conn": [], "connother": [], "readinfo": ["select count(*) from information_schema.tables where table_schema = 'S1'"], "comment": [f"comment on table d0.s0.shared is 'by{who}'"],
     }[name]
 
@@ -36,22 +38,36 @@ def run_pair(pair, first, p1, p2, free=False, nthreads=2):
     admin.cursor().execute("create table pk (v int primary key)")
     sc = sched.Scheduler(first, p1, p2)
     if not free:
-        engine.install(fs, before=lambda n, sql, owner: sc.yield_point())
-    errs, partial = [], []
+        # hand-over points: before every engine call, including the calls that collect a result (execute and fetch are two calls)
+        engine.install(fs, before=lambda n, sql, owner: sc.yield_point(), fetch_points=True)
+    errs, partial, foreign = [], [], []
+    CONNECT_PAIRS = ("none|none", "conn|connother", "none|readinfo")
+
+    def open_session(name):
+        if name == "nodbsel":
+            return fs.connect()                 # no current database: every name is fully qualified
+        if name in ("ctmeta", "readmeta"):
+            return fs.connect("D0", "S0")       # metadata views read the side tables of the CURRENT database (see C09)
+        return fs.connect("D1", "S2" if name == "connother" else "S1")
+
+    # pairs that are about the statements: the sessions exist before the schedule starts, so that its preemption points count the
+    # engine calls of the statements (the connect bootstrap is scheduled in the pairs that are about connecting)
+    pre = {} if pair in CONNECT_PAIRS or free else {w: open_session(a if w % 2 == 1 else b) for w in range(1, nthreads + 1)}
 
     def session(who):
         name = a if who % 2 == 1 else b
         if not free:
             sc.start(who)
         try:
-            if name in ("ctmeta", "readmeta"):
-                conn = fs.connect("D0", "S0")       # metadata views read the side tables of the CURRENT database (see C09)
-            else:
-                conn = fs.connect("D1", "S2" if name == "connother" else "S1")
+            conn = pre.get(who) or open_session(name)
             cur = conn.cursor()
             for sql in script(name, who):
                 cur.execute(sql)
                 rows = cur.fetchall()
+                if name == "nodbsel" and sql.startswith("select"):
+                    want = [(who * 1000 + (0 if "from" in sql else 1),)]
+                    if [tuple(int(x) for x in r) for r in rows] != want:
+                        foreign.append((who, rows))
                 if name == "readmeta" and rows:
                     # the table is visible: its comment (first read) and its VARCHAR length (second read) must be there too
                     if (sql == META1 and rows[0][0] != "c1") or (sql == META2 and rows[0][0] != 5):
@@ -62,18 +78,62 @@ def run_pair(pair, first, p1, p2, free=False, nthreads=2):
             if not free:
                 sc.finish(who)
 
-    ths = [threading.Thread(target=session, args=(w,)) for w in range(1, nthreads + 1)]
+    ths = [threading.Thread(target=session, args=(w,), daemon=True) for w in range(1, nthreads + 1)]
     for t in ths:
         t.start()
     hang = False
     for t in ths:
-        t.join(40)
+        t.join(12)
         hang = hang or t.is_alive()
     raw = fs.duck_conn.cursor() if free else fs.duck_conn._real.cursor()  # noqa: SLF001
     rows = raw.execute("select (select count(*) from D0.S0.SHARED) + (select count(*) from D0.S0.PK)").fetchall()[0][0]
+    vsum = raw.execute("select coalesce((select sum(v) from D0.S0.SHARED), 0) + coalesce((select sum(v) from D0.S0.PK), 0)").fetchall()[0][0]
     tabs = raw.execute("select count(*) from duckdb_tables() where database_name = 'D0' and schema_name = 'S0' and table_name not in ('SHARED', 'PK')").fetchall()[0][0]
     schemas = raw.execute("select count(*) from information_schema.schemata where catalog_name = 'D1' and schema_name not in ('main','information_schema','pg_catalog')").fetchall()[0][0]
-    return {"errs": len(errs), "hang": bool(hang or sc.hang), "rows": int(rows), "tabs": int(tabs), "schemas": int(schemas), "partial": bool(partial)}, errs
+    return {"errs": len(errs), "hang": bool(hang or sc.hang), "rows": int(rows), "tabs": int(tabs), "schemas": int(schemas), "partial": bool(partial),
+            "foreign": bool(foreign), "vsum": int(vsum)}, errs
+
+
+def isolated(pair, first, p1, p2, limit=60):
+    """one schedule in a forked child: module-level state of the implementation (locks, caches) and threads that never
+    return do not leak into the next schedule; a child that does not answer in time is killed and counts as a hang"""
+    import json
+    import os
+    import select
+    import signal
+
+    r, w = os.pipe()
+    pid = os.fork()
+    if pid == 0:
+        code = 0
+        try:
+            os.close(r)
+            obs, _errs = run_pair(pair, first, p1, p2)
+            os.write(w, json.dumps(obs).encode())
+        except BaseException:  # noqa: BLE001
+            code = 1
+        finally:
+            os._exit(code)
+    os.close(w)
+    buf = b""
+    try:
+        ready, _, _ = select.select([r], [], [], limit)
+        if ready:
+            while True:
+                chunk = os.read(r, 65536)
+                if not chunk:
+                    break
+                buf += chunk
+    finally:
+        os.close(r)
+        try:
+            os.kill(pid, signal.SIGKILL)
+        except ProcessLookupError:
+            pass
+        os.waitpid(pid, 0)
+    if buf:
+        return json.loads(buf.decode())
+    return {"errs": -1, "hang": True, "rows": -1, "tabs": -1, "schemas": -1, "partial": False, "foreign": False, "vsum": -1}
 
 
 class C19(Prop):
@@ -89,7 +149,7 @@ class C19(Prop):
     ]
 
     def consts(self, tier):
-        return {"MaxP": 12, "IfNotExists": True, "AtomicMeta": True, "Work1": "connect", "Work2": "connect"}
+        return {"MaxP": 20, "IfNotExists": True, "AtomicMeta": True, "Work1": "connect", "Work2": "connect"}
 
     def model_checks(self, tier):
         base = {"Devs": set(), "Depth": 2, "MaxFails": 0, "SampleOneIn": 1, "MaxP": 2}
@@ -111,9 +171,9 @@ class C19(Prop):
 
     def generations(self, tier, seed):
         big = tier == "thorough"
-        c = {"Devs": set(), "Depth": 2, "MaxFails": 0, "SampleOneIn": 1, "MaxP": 14 if big else 11, "IfNotExists": True, "AtomicMeta": True,
+        c = {"Devs": set(), "Depth": 2, "MaxFails": 0, "SampleOneIn": 1, "MaxP": 20 if big else 15, "IfNotExists": True, "AtomicMeta": True,
              "Work1": "connect", "Work2": "connect"}
-        return [dict(name="schedules", mode="edges", sample=None if big else 900, consts=c)]
+        return [dict(name="schedules", mode="edges", sample=None if big else 1600, consts=c)]
 
     def nontrivial(self, ops):
         return ops[0]["p1"] > 0
@@ -121,8 +181,7 @@ class C19(Prop):
     def drive(self, ops, rng):
         ev = []
         for op in ops:
-            obs, _errs = run_pair(op["pair"], op["first"], op["p1"], op["p2"])
-            ev.append({"op": op, "obs": obs})
+            ev.append({"op": op, "obs": isolated(op["pair"], op["first"], op["p1"], op["p2"])})
         return ev
 
     def extra_checks(self, tier, seed, run):
